@@ -604,6 +604,10 @@ impl Writer {
             let mut merge_pos = 0;
             let mut merge_datafile_writer =
                 BufWriter::new(log::create(utils::datafile_name(path, *merge_fileid))?);
+            // The merging process has to know the file from the start. A merge that fails may
+            // leave copies in it that nothing refers to, a tombstone in a newer file must not be
+            // dropped while such a file is kept.
+            self.ctx.stats.entry(*merge_fileid).or_default();
             let mut merge_hintfile_writer =
                 LogWriter::new(log::create(utils::hintfile_name(path, *merge_fileid))?)?;
 
@@ -639,8 +643,7 @@ impl Writer {
                 keydir_entry.pos = merge_pos;
 
                 // the merge file must only contain live keys
-                let mut stats = self.ctx.stats.entry(*merge_fileid).or_default();
-                stats.add_live();
+                self.ctx.stats.entry(*merge_fileid).or_default().add_live();
 
                 // write the KeyDir entry to the hint file for fast recovery
                 merge_hintfile_writer.append(&HintFileEntry {
@@ -661,6 +664,7 @@ impl Writer {
                     merge_pos = 0;
                     merge_datafile_writer =
                         BufWriter::new(log::create(utils::datafile_name(path, *merge_fileid))?);
+                    self.ctx.stats.entry(*merge_fileid).or_default();
                     merge_hintfile_writer =
                         LogWriter::new(log::create(utils::hintfile_name(path, *merge_fileid))?)?;
                     debug!(merge_fileid, "new merge file");
